@@ -60,6 +60,7 @@ type RowOut struct {
 	Ciph     []string `json:"ciph"`
 	Curv     []string `json:"curv"`
 	Names    bool     `json:"names"`
+	Ccert    bool     `json:"ccert"`
 	Msg      string   `json:"msg,omitempty"`
 }
 
@@ -255,6 +256,8 @@ func runServerRow(in RowIn, mat *rowMaterial) (RowOut, error) {
 		head = "tls self_signed a.test"
 	case "none":
 		head = "tls"
+	case "filedir":
+		head = "tls"
 	case "bogus":
 		head = "tls nosuchloader " + mat.c1 + " " + mat.k1
 	case "odd":
@@ -263,6 +266,9 @@ func runServerRow(in RowIn, mat *rowMaterial) (RowOut, error) {
 		return out, fmt.Errorf("unknown mode %q", in.Mode)
 	}
 	body := directiveBody(in)
+	if in.Mode == "filedir" {
+		body = "    loader file " + mat.c1 + " " + mat.k1 + "\n" + body
+	}
 	if in.Mode == "none" && body == "" {
 		body = "    # nothing\n"
 	}
@@ -343,15 +349,25 @@ func runServerRow(in RowIn, mat *rowMaterial) (RowOut, error) {
 
 // dialWith makes one handshake of the client configuration against a harness server.
 func dialWith(ccfg *tls.Config, scfg *tls.Config) bool {
+	ok, _ := dialWithCert(ccfg, scfg)
+	return ok
+}
+
+// dialWithCert also tells the serial number of the client certificate the server was shown (0 = none).
+func dialWithCert(ccfg *tls.Config, scfg *tls.Config) (bool, int64) {
 	cc, sc := bufPipe()
 	defer cc.Close()
 	done := make(chan struct{})
+	var shown int64
 	go func() {
 		defer close(done)
 		defer sc.Close()
 		s := tls.Server(sc, scfg)
 		sc.SetDeadline(time.Now().Add(20 * time.Second))
 		if s.Handshake() == nil {
+			if pc := s.ConnectionState().PeerCertificates; len(pc) > 0 {
+				shown = pc[0].SerialNumber.Int64()
+			}
 			buf := make([]byte, 1)
 			s.Read(buf)
 		}
@@ -361,14 +377,26 @@ func dialWith(ccfg *tls.Config, scfg *tls.Config) bool {
 	tc := tls.Client(cc, c)
 	cc.SetDeadline(time.Now().Add(20 * time.Second))
 	err := tc.Handshake()
+	if err == nil {
+		// TLS 1.3: the server reads the client's certificate after the client's handshake has returned
+		cc.SetDeadline(time.Now().Add(20 * time.Second))
+		tc.Write([]byte{0})
+	}
 	cc.Close()
 	<-done
-	return err == nil
+	return err == nil, shown
 }
 
 func runClientRow(in RowIn, mat *rowMaterial) (RowOut, error) {
 	out := RowOut{Vers: []int{}, Ciph: []string{}, Curv: []string{}, Names: true}
-	text := block("tls_client", "    root_ca "+mat.c1+"\n"+directiveBody(in))
+	extra := ""
+	switch in.Mode {
+	case "clientcert":
+		extra = "    cert " + mat.c2 + "\n    key " + mat.k2 + "\n"
+	case "clienthalf":
+		extra = "    cert " + mat.c2 + "\n"
+	}
+	text := block("tls_client", "    root_ca "+mat.c1+"\n"+extra+directiveBody(in))
 	nodes, err := authkit.Nodes(text)
 	if err != nil {
 		return out, fmt.Errorf("config text does not parse: %v\n%s", err, text)
@@ -380,12 +408,17 @@ func runClientRow(in RowIn, mat *rowMaterial) (RowOut, error) {
 		return out, nil
 	}
 	ccfg := val.(*tls.Config)
-	srv := func() *tls.Config { return &tls.Config{Certificates: []tls.Certificate{mat.srvCert}} }
+	srv := func() *tls.Config {
+		return &tls.Config{Certificates: []tls.Certificate{mat.srvCert}, ClientAuth: tls.RequestClientCert}
+	}
 	for i, v := range versIDs {
 		s := srv()
 		s.MinVersion, s.MaxVersion = v, v
-		if dialWith(ccfg, s) {
+		if ok, shown := dialWithCert(ccfg, s); ok {
 			out.Vers = append(out.Vers, i)
+			if shown == 501 { // the serial of the second pair of the row material
+				out.Ccert = true
+			}
 		}
 	}
 	for _, cs := range cipherU {
